@@ -576,6 +576,10 @@ func genExtract(t *rapid.T) *ExtractCase {
 	c.K = rapid.IntRange(1, np+1).Draw(t, "k")
 	c.Inplace = rapid.Bool().Draw(t, "inplace")
 	c.Digest = rapid.SampledFrom([]string{"", "", "sha256"}).Draw(t, "digest")
+	c.NameLen = rapid.SampledFrom([]int{0, 0, 0, 0, 0, 0, 200, 243, 244, 250, 255}).Draw(t, "namelen")
+	if rapid.IntRange(0, 5).Draw(t, "deep?") == 0 {
+		c.DirDepth = rapid.SampledFrom([]int{1, 12, 20}).Draw(t, "depth")
+	}
 	c.Death = rapid.SampledFrom([]string{"kill", "kill", "kill", "err", "strace-kill", "strace-kill", "strace-err"}).Draw(t, "death")
 	if c.straced() { // final_test.go: the whole run under strace, one call killed or failed
 		fams := []string{"rename", "rename", "unlink", "unlink", "truncate", "open", "open", "link", "chmod"}
@@ -606,7 +610,7 @@ var spec = &hx.Spec[Case]{
 	Level: "fault_enumeration",
 	Rule: "store cases = (1..4 chunks, compressed or not, 1 pinned writer or 2..4 concurrent writers incl. the same chunk from several, optional pre-existing chunk/prefix directory, " +
 		"crash point = SIGKILL at the entry of the c-th mkdirat/openat/write/close/renameat/unlinkat of the writer thread (strace inject), or RLIMIT_FSIZE=b with and without a kill at the write that follows the cut one); " +
-		"extract cases = (1..10 chunk positions over 1..7 distinct chunks, -n 1..4, with/without -k, digest sha512-256 or sha256 (index, store objects and --digest), prior destination absent/empty/garbage/partly right/complete, SIGKILL while the k-th chunk request is held, or a 404 on it, " +
+		"extract cases = (1..10 chunk positions over 1..7 distinct chunks, -n 1..4, with/without -k, digest sha512-256 or sha256 (index, store objects and --digest), destination name blob or 200/243/244/250/255 bytes long (from 244 on a temporary .<name>.<random> has no room) optionally 1..20 directories of 100 bytes deep, prior destination absent/empty/garbage/partly right/complete, SIGKILL while the k-th chunk request is held, or a 404 on it, " +
 		"or the whole extract under strace -f with all requests answered and the c-th (per thread) open*/truncate/unlink*/rename*/link*/chmod* call killed at its entry or failed with EIO/EXDEV/ENOSPC/EACCES: " +
 		"oracle for non -k = destination byte- and inode-identical to before, or the complete blob once a rename/link onto it was seen to return 0; for -k the re-run oracle). " +
 		"non-trivial = the store child died while a temporary created by StoreChunk existed and was not yet renamed (seen in the strace log) or a write was cut at 0 < b < stored length; " +
@@ -617,6 +621,7 @@ var spec = &hx.Spec[Case]{
 		"chunk files are validated with klauspost zstd and crypto/sha512 directly; a name is a chunk name if it is <64 hex>[.cacnk]",
 		"leftovers are looked for in the store, in the child's TMPDIR and in its working directory",
 		"extract: death is SIGKILL while the harness' HTTP server holds a chunk request, plus self-inflicted death on a 404; SIGINT/SIGTERM belong to C07",
+		"long destination names: a run that refuses the name (non-zero exit, 'file name too long') counts as a death like any other - the destination must be as before; success is not demanded",
 		"extract under strace: when= counts per thread and the Go runtime places the work freely, so (syscall, c) = the first thread reaching its c-th call; c runs to the process-wide total of the dry run; the call really hit is read from the log. Only directory-visible calls are crash points there (data writes are covered by the request-held kills)",
 	},
 	Required: []string{"store:single-writer", "store:multi-writer", "store:compressed", "store:uncompressed", "store:killed-with-temp-present", "store:multi-killed-with-temp-present",
@@ -624,6 +629,7 @@ var spec = &hx.Spec[Case]{
 		"store:killed-at=mkdirat", "store:killed-at=openat", "store:killed-at=write", "store:killed-at=close", "store:killed-at=renameat", "store:killed-at=unlinkat",
 		"extract:inplace-died-midway", "extract:tmpfile-died-midway", "extract:prior=absent", "extract:prior=partial", "extract:prior=garbage", "extract:n>1", "extract:death=kill", "extract:death=err",
 		"extract:rerun-with-some-present", "extract:digest=sha256", "extract:digest=sha256:inplace-rerun",
+		"extract:dest-name>=244", "extract:dest-name>=244:prior-exists", "extract:dest-name=243", "extract:deep-dir",
 		"extract:death=strace-kill", "extract:death=strace-err", "extract:final-phase-kill", "extract:killed-at-rename", "extract:rename-failed", "extract:inplace-syscall-death"},
 	Gen: genCase,
 	Run: run,
@@ -838,6 +844,11 @@ func enumFinalConfigs() (bases []ExtractCase) {
 	}
 	add(0, 1, true, "partial")
 	add(1, 3, true, "absent")
+	// long destination names (see enumNames)
+	for _, v := range [][3]int{{250, 0, 1}, {244, 15, 2}, {255, 0, 0}, {243, 0, 1}} {
+		add(0, 1, false, []string{"absent", "garbage", "partial"}[v[2]])
+		bases[len(bases)-1].NameLen, bases[len(bases)-1].DirDepth = v[0], v[1]
+	}
 	if hx.Thorough() {
 		add(0, 3, true, "absent")
 		add(1, 1, true, "partial")
@@ -876,6 +887,36 @@ func enumFinal(base ExtractCase) (cases []Case, points int) {
 		}
 	}
 	return cases, points
+}
+
+// enumNames: destination names around the length from which a temporary next to it has no room,
+// for every request index of the first layout (without -k: the name must not cost the protection).
+func enumNames() (cases []Case) {
+	l := enumLayouts()[0]
+	type nd struct{ name, depth int }
+	for _, v := range []nd{{200, 0}, {243, 0}, {244, 0}, {250, 0}, {255, 0}, {250, 15}, {255, 20}} {
+		for _, prior := range []string{"absent", "garbage", "partial"} {
+			for _, death := range []string{"kill", "err"} {
+				if death == "err" && (prior == "partial" || v.name == 200) {
+					continue
+				}
+				for k := 1; k <= len(l.layout)+1; k++ {
+					if k > 3 && !hx.Thorough() && prior == "partial" {
+						continue
+					}
+					cases = append(cases, Case{Part: "extract", Extract: &ExtractCase{Chunks: l.chunks, Layout: l.layout, N: 1, K: k, Death: death, Prior: prior,
+						PriorSeed: 0x5a5a5a5a5a5a5a5a, PriorLen: 1234, NameLen: v.name, DirDepth: v.depth}})
+				}
+			}
+		}
+	}
+	for _, v := range []nd{{255, 0}, {244, 20}} { // -k never needed a temporary: must simply work
+		for k := 1; k <= len(l.layout)+1; k++ {
+			cases = append(cases, Case{Part: "extract", Extract: &ExtractCase{Chunks: l.chunks, Layout: l.layout, N: 1, K: k, Inplace: true, Death: "kill", Prior: "partial",
+				PriorSeed: 0x5a5a5a5a5a5a5a5a, PriorLen: 1234, NameLen: v.name, DirDepth: v.depth}})
+		}
+	}
+	return cases
 }
 
 func enumExtract() (cases []Case) {
@@ -936,7 +977,7 @@ func TestEnum(t *testing.T) {
 	if t.Failed() {
 		return
 	}
-	ex := enumExtract()
+	ex := append(enumExtract(), enumNames()...)
 	var my []Case
 	for _, c := range ex {
 		if mine() {
@@ -948,7 +989,7 @@ func TestEnum(t *testing.T) {
 		return
 	}
 	hx.AddNote("enumerated_extract_kill_points", len(my))
-	hx.Exhaustive("extract: every request index k for two fixed layouts x listed (n, -k, prior, death) grid, + digest sha256 for the -k kills")
+	hx.Exhaustive("extract: every request index k for two fixed layouts x listed (n, -k, prior, death) grid, + digest sha256 for the -k kills; + destination names of 200/243/244/250/255 bytes (also 15..20 directories deep) x every k for the first layout")
 	for i, base := range enumFinalConfigs() {
 		if !mine() {
 			continue
@@ -959,7 +1000,7 @@ func TestEnum(t *testing.T) {
 			return
 		}
 		hx.AddNote("enumerated_extract_syscall_points", points)
-		hx.Exhaustive(fmt.Sprintf("extract under strace, content %d (%d positions, n=%d, -k=%v, prior %s): SIGKILL at every (directory-visible syscall, c<=process total of the dry run) + injected error at every rename*/link*/unlink*/truncate call",
-			i, len(base.Layout), base.N, base.Inplace, base.Prior))
+		hx.Exhaustive(fmt.Sprintf("extract under strace, content %d (%d positions, n=%d, -k=%v, prior %s, name_len %d, dir_depth %d): SIGKILL at every (directory-visible syscall, c<=process total of the dry run) + injected error at every rename*/link*/unlink*/truncate call",
+			i, len(base.Layout), base.N, base.Inplace, base.Prior, base.NameLen, base.DirDepth))
 	}
 }
